@@ -1,6 +1,208 @@
-"""re.match on symbolic strings (filled in for C10/C13)."""
+"""Python `re` patterns (the subset used by the repository) -> z3 regular
+expressions, and `re.match` on symbolic strings.
+
+Assumed contract of the `re` engine (listed in the trusted base): for these
+patterns `re.match(p, s)` succeeds iff a prefix-anchored match exists in the
+language below; `\\d` is [0-9] (text is Latin-1 on the wire; Latin-1 has no
+other decimal digits); `$` matches at the end or before one trailing newline;
+`.` is any character except newline.  Group boundaries: the patterns used are
+unambiguous (digit runs delimited by non-digit separators), so the split
+produced here is the one CPython reports.
+"""
+import z3
 from .interp import OutOfReach
+from .values import Sym
+from .smt import VStr, VNone, S
+
+StrS = z3.StringSort()
+ANYCHAR = z3.Range(z3.StringVal("\x00"), z3.StringVal("\xff"))  # Latin-1 alphabet
+
+
+def _digit():
+    return z3.Range("0", "9")
+
+
+class Node:
+    pass
+
+
+class Lit(Node):
+    def __init__(self, re_):
+        self.re = re_
+
+
+class Group(Node):
+    def __init__(self, items):
+        self.items = items
+
+
+class Rep(Node):
+    def __init__(self, item, lo, hi):
+        self.item, self.lo, self.hi = item, lo, hi
+
+
+def parse(pat):
+    """-> (items, anchored_end).  items: list of Node."""
+    pos = 0
+    n = len(pat)
+
+    def atom():
+        nonlocal pos
+        c = pat[pos]
+        if c == "\\":
+            d = pat[pos + 1]
+            pos += 2
+            if d == "d":
+                return Lit(_digit())
+            if d in "-.:;$^()[]{}+*?|/\\ ":
+                return Lit(z3.Re(z3.StringVal(d)))
+            raise OutOfReach("regex escape \\%s" % d)
+        if c == "[":
+            end = pat.index("]", pos)
+            body = pat[pos + 1:end]
+            pos = end + 1
+            if body.startswith("^"):
+                raise OutOfReach("negated character class")
+            alts = []
+            i = 0
+            while i < len(body):
+                if i + 2 < len(body) and body[i + 1] == "-":
+                    alts.append(z3.Range(body[i], body[i + 2]))
+                    i += 3
+                elif body[i] == "\\":
+                    alts.append(_digit() if body[i + 1] == "d" else z3.Re(z3.StringVal(body[i + 1])))
+                    i += 2
+                else:
+                    alts.append(z3.Re(z3.StringVal(body[i])))
+                    i += 1
+            return Lit(z3.Union(*alts) if len(alts) > 1 else alts[0])
+        if c == "(":
+            pos += 1
+            if pat[pos] == "?":
+                raise OutOfReach("regex group flags")
+            items = seq(")")
+            pos += 1
+            return Group(items)
+        if c == ".":
+            pos += 1
+            nl = z3.Re(z3.StringVal("\n"))
+            return Lit(z3.Intersect(ANYCHAR, z3.Complement(nl)))
+        if c in "|":
+            raise OutOfReach("regex alternation")
+        pos += 1
+        return Lit(z3.Re(z3.StringVal(c)))
+
+    def seq(stop):
+        nonlocal pos
+        items = []
+        while pos < n and pat[pos] != stop:
+            if pat[pos] == "$" and pos == n - 1 and stop == "\0":
+                break
+            a = atom()
+            while pos < n and pat[pos] in "?+*{":
+                q = pat[pos]
+                if q == "?":
+                    a = Rep(a, 0, 1)
+                    pos += 1
+                elif q == "+":
+                    a = Rep(a, 1, None)
+                    pos += 1
+                elif q == "*":
+                    a = Rep(a, 0, None)
+                    pos += 1
+                else:
+                    end = pat.index("}", pos)
+                    body = pat[pos + 1:end]
+                    pos = end + 1
+                    if "," in body:
+                        lo, hi = body.split(",")
+                        a = Rep(a, int(lo or 0), int(hi) if hi else None)
+                    else:
+                        a = Rep(a, int(body), int(body))
+            items.append(a)
+        return items
+    if pat.startswith("^"):
+        pos = 1
+    items = seq("\0")
+    anchored = pos < n and pat[pos] == "$"
+    return items, anchored
+
+
+def to_re(node):
+    if isinstance(node, Lit):
+        return node.re
+    if isinstance(node, Group):
+        return seq_re(node.items)
+    if isinstance(node, Rep):
+        r = to_re(node.item)
+        if node.hi is None:
+            if node.lo == 0:
+                return z3.Star(r)
+            if node.lo == 1:
+                return z3.Plus(r)
+            return z3.Concat(*([r] * node.lo + [z3.Star(r)]))
+        if node.lo == 0 and node.hi == 1:
+            return z3.Option(r)
+        if node.lo == node.hi:
+            return z3.Concat(*([r] * node.lo)) if node.lo > 1 else (r if node.lo == 1 else z3.Re(z3.StringVal("")))
+        return z3.Loop(r, node.lo, node.hi)
+    raise OutOfReach("regex node")
+
+
+def seq_re(items):
+    rs = [to_re(x) for x in items]
+    if not rs:
+        return z3.Re(z3.StringVal(""))
+    return z3.Concat(*rs) if len(rs) > 1 else rs[0]
+
+
+def language(pat):
+    """z3 regex of the strings s for which re.match(pat, s) succeeds."""
+    items, anchored = parse(pat)
+    core = seq_re(items)
+    if anchored:
+        return z3.Concat(core, z3.Option(z3.Re(z3.StringVal("\n"))))
+    return z3.Concat(core, z3.Star(ANYCHAR))
+
+
+def core_language(pat):
+    items, anchored = parse(pat)
+    return seq_re(items)
+
+
+def count_groups(items):
+    n = 0
+    for x in items:
+        if isinstance(x, Group):
+            n += 1 + count_groups(x.items)
+        elif isinstance(x, Rep):
+            n += count_groups([x.item])
+    return n
 
 
 def match_symbolic(I, pat, s):
-    raise OutOfReach("re.match on symbolic string")
+    """re.match(pat, <symbolic str s>): forks on membership; returns None or the
+    list of group values (top-level groups only)."""
+    items, anchored = parse(pat)
+    lang = language(pat)
+    P = I.prover
+    if not P.fork(z3.InRe(s, lang)):
+        return None
+    if count_groups(items) == 0:
+        return []
+    if any(isinstance(x, Rep) and count_groups([x.item]) for x in items) or \
+            any(isinstance(x, Group) and count_groups(x.items) for x in items):
+        raise OutOfReach("nested / repeated capture groups")
+    segs = []
+    groups = []
+    for k, x in enumerate(items):
+        v = I.fresh("re_seg", StrS)
+        P.assume(z3.InRe(v, to_re(x)))
+        segs.append(v)
+        if isinstance(x, Group):
+            groups.append(Sym(VStr(v)))
+    tail = I.fresh("re_tail", StrS)
+    if anchored:
+        P.assume(z3.Or(tail == z3.StringVal(""), tail == z3.StringVal("\n")))
+    P.assume(s == z3.Concat(*(segs + [tail])))
+    return groups
